@@ -48,6 +48,16 @@ CLAIMS = {
              "errors in 4 placements, uncaught throws surfacing as JSError, and line/column shift invariance.",
         technique="differential symbolic execution vs definitional interpreter (CrossHair/z3)",
         design_ref="DESIGN.md section 4 (C07)"),
+    "C14": dict(
+        text="Encoding kernels over all sizes: for every opcode with an operand, Compiler._emit / _emit_jump / "
+             "_patch_jump are executed with the operand, the jump target and the code size as solver variables in "
+             "[0, 2**20] and fed to the real decoder (VM._fetch): either the compiler refuses with a JSError, or every "
+             "emitted element satisfies bytes()'s precondition and decodes to exactly the value emitted. From kernel "
+             "to program: 15 shape templates whose byte size is affine in the scale n (checked), z3 solves for the n "
+             "that crosses each boundary (255/256, 65535/65536), and the real eval is replayed there and up to 4x "
+             "beyond against the closed-form result.",
+        technique="symbolic execution of the bytecode encoder/decoder pair (CrossHair/z3) + z3-solved boundary sizes, replayed",
+        design_ref="DESIGN.md section 4 (C14)"),
     "C06": dict(
         text="Each real opcode handler (and the compiled compound/update/logical forms through eval) is executed "
              "symbolically against a transcription of the ECMAScript abstract operations: all IEEE doubles and all "
